@@ -157,6 +157,9 @@ class Check:
             if self.counts.get(rid, 0) < r["floor"]:
                 self.broke("rule %s matched %d instances, floor is %d (anchor vanished or refactored?)" % (
                     rid, self.counts.get(rid, 0), r["floor"]))
+        global EVID
+        if os.environ.get("NSTD_EVIDENCE_DIR"):
+            EVID = os.environ["NSTD_EVIDENCE_DIR"]
         os.makedirs(os.path.join(EVID, "replay"), exist_ok=True)
         for k, v in enumerate(new_viol):
             rp = os.path.join(EVID, "replay", "%s-%d.json" % (self.pid, k))
